@@ -5,8 +5,9 @@ Require Import RQ.Base RQ.Rect RQ.Pixel RQ.Surface RQ.SurfaceProofs.
 (* For every per-pixel row function gr computing the total function g (copy, any blend mode
    that cannot trip a debug assertion, source-over by an alpha byte), every destination and
    source size (0 included), every src_rect (inside, overlapping, outside, empty, inverted) and
-   every dst point, all within +-2^29: the call returns normally (no out-of-bounds access, no
-   i32 overflow), the destination keeps its size, and destination pixel (X,Y) becomes
+   every dst point - any integers at all, dom_ok only asks for non-negative sizes (the clipping is done
+   in i64, where values derived from i32s cannot overflow): the call returns normally (no
+   out-of-bounds access), the destination keeps its size, and destination pixel (X,Y) becomes
    g (source pixel at src_rect.min + (X,Y) - dst) (old value) exactly when that source position
    lies inside src_rect and inside the source; every other pixel keeps its value. *)
 Theorem C15_block_transfer :
